@@ -21,6 +21,10 @@ import "sort"
 type EmulOpts struct {
 	Cmp        KeyCmp // how key parts are compared when scanning rows (the engine compares raw values)
 	ConcatKeys bool   // key the pending maps by the separator-less concatenation of the PK values
+	// DeadRowsSkipped selects the repaired unique-key lookup (pending adds first, then the stored rows
+	// except those pending deletion) instead of the defective one (abandon the check when any pending
+	// delete agrees on the key). Monitors set it from ProbeKnown().UniqueCheckDeadRow.
+	DeadRowsSkipped bool
 }
 
 type emul struct {
@@ -67,9 +71,11 @@ func (e *emul) get(r Row) (Row, bool) {
 }
 
 func (e *emul) getByCols(r Row, k *Key) (Row, bool) {
-	for _, key := range e.order {
-		if d, ok := e.deletes[key]; ok && e.t.KeyEq(k, d, r, e.o.Cmp) {
-			return nil, false
+	if !e.o.DeadRowsSkipped {
+		for _, key := range e.order {
+			if d, ok := e.deletes[key]; ok && e.t.KeyEq(k, d, r, e.o.Cmp) {
+				return nil, false
+			}
 		}
 	}
 	for _, key := range e.order {
@@ -79,6 +85,9 @@ func (e *emul) getByCols(r Row, k *Key) (Row, bool) {
 	}
 	for _, s := range e.stored {
 		if e.t.KeyEq(k, s, r, e.o.Cmp) {
+			if _, dead := e.deletes[e.key(s)]; dead && e.o.DeadRowsSkipped {
+				continue
+			}
 			return s, true
 		}
 	}
